@@ -20,7 +20,7 @@ RULE = ('hostile scripts: in each victim state (contact header not yet sent by t
         '(role, script).')
 COMPONENTS = tc.COMPONENTS
 PROBES = ('hostile.pre-session', 'hostile.unknown-id', 'hostile.no-transfer', 'hostile.unknown-type', 'hostile.bad-contact',
-          'hostile.other', 'probe.victim_transfer_completed', 'probe.followup_processed', 'probe.queued_before_session', 'probe.final_ack_while_in_progress')
+          'hostile.other', 'probe.victim_transfer_completed', 'probe.followup_processed', 'probe.queued_before_session', 'probe.final_ack_while_in_progress', 'probe.final_ack_while_queued')
 ASSUMPTIONS = ['the reject/terminate/close clause is demanded only for the message classes the statement lists; for other hostile '
                'input only: no escaped exception, no mixed data, own transfers unharmed']
 CHUNK = 20
@@ -75,6 +75,9 @@ def gen(ch, tier):
                 script.append(dict(step='victim_send', len=ch.choice('vlen', (1, 40, 300, 3000)), tag=tag))
                 tag += 1
                 if ch.coin('own-ack', 1, 3):
+                    if ch.coin('own-ack.now', 1, 2):
+                        # the acknowledgement arrives before the agent's idle callback has started the transfer: queued, not started
+                        script[-1]['no_settle'] = True
                     script.append(dict(step='hostile', state='established', msg=dict(cls='other', what='ack-own-end')))
             elif kind == 2:
                 script.append(dict(step='honest_xfer', tid=peer_tid, tag=tag, sizes=[ch.choice('hs', (1, 20, 60)) for _ in range(1 + ch.pick('hn', 3))]))
@@ -213,6 +216,9 @@ def _drive(run, plan, har):
             hdl = har.victim_state()
             if hdl is not None and (hdl._in_sess or step.get('early')) and not hdl._in_term:
                 har.user_send(body_for(step['tag'], step['len']))
+                if step.get('no_settle'):
+                    run.stats['probe.final_ack_while_queued'] = 1
+                    continue
                 har.settle()
                 if step.get('early'):
                     run.stats['probe.queued_before_session'] = 1
